@@ -12,25 +12,25 @@ PROPS = {
                 thorough=dict(runs=40000, budget_s=600, min_runs=2000),
                 watchdog_s=30, spot=6),
     'C01': dict(engine='solver_sim',
-                quick=dict(runs=1600, budget_s=90, min_runs=150),
+                quick=dict(runs=1200, budget_s=120, min_runs=150),
                 thorough=dict(runs=20000, budget_s=900, min_runs=1500),
-                watchdog_s=120, spot=4),
+                watchdog_s=120, spot=4, jaxcache=True),
     'C06': dict(engine='solver_sim',
-                quick=dict(runs=1600, budget_s=90, min_runs=150),
+                quick=dict(runs=1000, budget_s=150, min_runs=150),
                 thorough=dict(runs=20000, budget_s=900, min_runs=1500),
-                watchdog_s=120, spot=4),
+                watchdog_s=120, spot=4, jaxcache=True),
     'C19': dict(engine='solver_sim',
-                quick=dict(runs=1200, budget_s=90, min_runs=100),
+                quick=dict(runs=900, budget_s=120, min_runs=100),
                 thorough=dict(runs=15000, budget_s=900, min_runs=1000),
-                watchdog_s=120, spot=4),
+                watchdog_s=120, spot=4, jaxcache=True),
     'C04': dict(engine='al_sim',
-                quick=dict(runs=640, budget_s=100, min_runs=60),
-                thorough=dict(runs=12000, budget_s=900, min_runs=600),
-                watchdog_s=180, spot=3),
+                quick=dict(runs=240, budget_s=180, min_runs=40),
+                thorough=dict(runs=6000, budget_s=1800, min_runs=400),
+                watchdog_s=180, spot=3, jaxcache=True),
     'C05': dict(engine='spg_sim',
                 quick=dict(runs=192, budget_s=150, min_runs=40),
                 thorough=dict(runs=4000, budget_s=1500, min_runs=400),
-                watchdog_s=240, spot=3),
+                watchdog_s=240, spot=3, jaxcache=True),
     'C07': dict(engine='c07_sim',
                 quick=dict(runs=480, budget_s=240, min_runs=60),
                 thorough=dict(runs=8000, budget_s=1800, min_runs=600),
